@@ -51,6 +51,8 @@ for _p in ("C09", "C10", "C11", "C12", "C13", "C16", "C28", "C40"):
     CHECKS[_p] = ("eng_query", "model_checking", _QUERY_ASSUME)
 CHECKS["C08"] = (("eng_core", "eng_query"), "model_checking", _CORE_ASSUME + _QUERY_ASSUME[1:3])
 
+CHECKS["C23"] = ("eng_det", "model_checking", _CORE_ASSUME[:2] + ["the two executions run in separate processes of the same build on the same machine"])
+
 # properties decided by two engines: the crash-left inputs come from the disk engine
 CHECKS["C21"] = (("eng_core", "eng_disk"), "model_checking", _CORE_ASSUME + _DISK_ASSUME[1:4])
 CHECKS["C18"] = (("eng_core", "eng_disk"), "model_checking", _CORE_ASSUME + _DISK_ASSUME[1:4])
